@@ -194,9 +194,15 @@ CHECKS = {
             "params": {"quick": {"N": 200}, "thorough": {"N": 600}},
             "covers": {"VerifC16LegacyStall": ["drained"]},
             "validate": False,
+        }, {
+            "pkg": KV, "funcs": ["VerifC16WriteDuringMerge"],
+            "params": {"quick": {"N": 2}, "thorough": {"N": 4}},
+            "max_paths": {"quick": 60000, "thorough": 400000},
+            "covers": {"VerifC16WriteDuringMerge": ["write-event", "replicated-event", "write-during-merge"]},
         }],
         "assumptions": [
             "clause (c) legacy channel API: the real events.EventEmitter (Emit, Subscribe, handleSubscriber with its two buffering goroutines, real container/list, sync.Cond) over the stub bus; N events (N > channel capacity 16); every interleaving of emitter, the two goroutines and the subscriber with at most P preemptions (switch or stall) at visible operations; plus a subscriber that stalls until everything else is blocked and then drains N events",
+            "clause (a) under concurrency: a key-value store (its view is a separate map, not an alias of the log) replicates a batch of N remote entries through the real Sync path while a local Put starts at ANY visible operation (lock, unlock, channel operation, go, cache/block write) of any goroutine involved and runs until it blocks; the bus hook queries the store with Get on every EventWrite / EventReplicated",
             "clause (a) state-before-event: every emission on the store's bus is observed synchronously in the emitting goroutine (a wrapper around the bus); on EventWrite the log and the view already hold the entry and there is exactly one write event per successful write; on EventReplicated all announced entries are in the log and the merged heads are already persisted",
         ],
         "outside": ["clause (b): ordering/losslessness of the real libp2p eventbus (the stub bus mirrors its blocking per-sink FIFO)", "clause (c) beyond P preemptions / N events; data races below visible-operation granularity"],
@@ -214,12 +220,19 @@ CHECKS = {
             "max_paths": {"quick": 60000, "thorough": 600000},
             "timeout": {"quick": "10m", "thorough": "60m"},
             "covers": {"VerifC01Log": ["converged"]},
+        }, {
+            "pkg": DOC, "funcs": ["VerifC01Docs"],
+            "params": {"quick": {"STEPS": 2}, "thorough": {"STEPS": 3}},
+            "max_paths": {"quick": 60000, "thorough": 600000},
+            "timeout": {"quick": "10m", "thorough": "60m"},
+            "covers": {"VerifC01Docs": ["converged"]},
         }],
         "assumptions": [
             "two writers (real stores built by InitBaseStore over a shared block store) produce a history of STEPS steps, each a local write with symbolic key/value or a real head exchange (Sync -> replicator -> ipfs-log fetcher -> Join) in either direction, in any order; then both exchange heads and a fresh replica receives everything by one of three routes: manual sync in one batch, load from the writer's disk (cache heads + blocks, real Load), or a snapshot saved by the writer (real SaveSnapshot / LoadFromSnapshot)",
             "the real ipfs-log Append/Join/traverse/sorting run in the interpreter; IPFS is a content-addressed block store stub with perfect hashing; identities use perfect symbolic signatures",
             "oracle: identical ordered hash lists and identical views on all three replicas; the view equals the replay of the replica's own log",
             "distinct entries never share (Lamport time, writer key): holds by construction (each identity writes through one live store)",
+            "document store: the same shape with Put / PutAll (two documents) / Delete over symbolic keys drawn from a two-key alphabet, so overwrites, deletes of present and absent keys and PUTALL batches that contain a key twice all occur; the view must equal the replay of the replica's own log after every step",
         ],
         "outside": ["more than two writers / longer histories", "Go map iteration orders other than insertion order", "byte-level JSON/CBOR"],
     },
